@@ -288,7 +288,7 @@ inductive VOp where
   | view (a x : Nat) | npcopy (a x : Nat) | sl (a x : Nat) (i j s : Option Int)
   | aget (a : Nat) (i : Int) | aset (a : Nat) (i k : Int) | alist (a : Nat)
   | nscale (a : Nat) (k : Int) | nset (a : Nat) (i k : Int) | nget (a : Nat) (i : Int) | nnorms (a : Nat)
-  | naxpy (a : Nat) (k : Int) (b : Nat) | nadd (a b : Nat) | nnew (a b : Nat) (k : Int) | nrun (a : Nat)
+  | naxpy (a : Nat) (k : Int) (b : Nat) | nadd (a b : Nat) | nnew (a b : Nat) (k : Int) | nint (a : Nat) (k : Int) | nrun (a : Nat)
   deriving Repr
 
 inductive TOp where
@@ -675,6 +675,15 @@ def vecEff (kd : Kind) (s : State) : VOp → Eff
     | some vb =>
       let R := vscale k (s.viewVals vb)
       if !okInt k || !okVals R then effSkip else .newA a R
+  | .nint a k =>
+    -- NumPyVector<double> over an int64 copy of the array: same numbers; `x *= k` stays in the converted copy
+    match s.arrs a with
+    | none => effUnbound
+    | some v =>
+      let A := s.viewVals v
+      let R := vscale k A
+      if !okInt k || !okVals R then effSkip else
+      .obs (showInts ([(A.length : Int), oneNorm A, infNorm A, twoNorm2 A] ++ A ++ [oneNorm R] ++ A))
   | .nrun a =>
     match s.arrs a with
     | none => effUnbound
